@@ -24,11 +24,37 @@ def install():
         return
     txaio.use_twisted()
     from twisted.internet.task import Clock
+    from twisted.python import log as _tplog
+    # no stderr noise: unhandled Deferred failures / logged errors are collected instead
+    try:
+        if _tplog.defaultObserver is not None:
+            _tplog.defaultObserver.stop()
+    except Exception:
+        pass
+    _tplog.addObserver(_observe)
+    try:
+        from twisted.logger import globalLogBeginner
+        globalLogBeginner.beginLoggingTo([lambda e: None], redirectStandardIO=False,
+                                         discardBuffer=True)
+    except Exception:
+        pass
     txaio.config.loop = Clock()
     _installed = True
 
 
+LOGGED_ERRORS = []   # failures reported to Twisted's log (e.g. "Unhandled error in Deferred")
+
+
+def _observe(event):
+    if event.get("isError"):
+        f = event.get("failure")
+        LOGGED_ERRORS.append(repr(f.value) if f is not None else str(event.get("message")))
+        if len(LOGGED_ERRORS) > 1000:
+            del LOGGED_ERRORS[:500]
+
+
 def new_clock(start=0.0):
+    del LOGGED_ERRORS[:]
     from twisted.internet.task import Clock
     c = Clock()
     if start:
